@@ -21,7 +21,11 @@ RULE = (
     "reached by direct construction, through the text assembler and through the SDK (rotation n/d, measurement basis "
     "rotations, template instantiation, app id (also on a subroutine object that was already encoded once), NV hardware angle normalisation), with the value also given as a numpy integer, and "
     "(instructions the NV transpiler copies or retargets) through NV transpilation before encoding; every shape x position x outlier list "
-    "enumerated + Hypothesis-random outliers.  Every case is non-trivial; distinct by (route, class, position, value)"
+    "enumerated + Hypothesis-random outliers.  History dimension (route 'mutate'): a VALID one-instruction program obtained by "
+    "construction / binary decoding / the text assembler / deepcopy (optionally already encoded once), whose operand is then changed "
+    "by its owner to an unrepresentable one - in place (instruction field; address/index/start/stop of the mutable ArrayEntry/ArraySlice "
+    "object the program already holds) or by replacing the whole entry/slice object - and encoded (again); expected program built "
+    "independently from the changed values.  Every case is non-trivial; distinct by (route, class, position, value[, origin, how])"
 )
 ASSUMPTIONS = ["'raises an error' = any exception from bytes()/flush()/instantiate(); the SDK may also reject earlier (counted as rejected)"]
 SHARDS = {"quick": 1, "thorough": 8}
@@ -322,6 +326,86 @@ def check_sdk(case) -> str:
         set_is_using_hardware(False)
 
 
+MUT_ORIGINS = ["built", "built-encoded", "deepcopy", "decoded", "decoded-encoded", "text", "text-encoded"]
+_SUBFIELD = {"addr": "address", "idx": "index", "start": "start", "stop": "stop"}
+MUT_REGIDX = [16, 1000]
+MUT_U8 = [256, -1, 65536]
+MUT_I32 = [2**31, -(2**31) - 1, 2**40 + 3]
+
+
+def _obtain(origin, fname, cls, base):
+    """A valid one-instruction program as its owner got hold of it.  None: this origin does not exist for the class
+    (no text form)."""
+    from netqasm.lang.parsing import deserialize
+    from netqasm.lang.parsing.text import parse_text_subroutine
+    from netqasm.lang.subroutine import Subroutine
+
+    kind, _, again = origin.partition("-")
+    valid = g.build(cls, base)
+    sub = Subroutine(instructions=[valid], netqasm_version=(0, 0), app_id=0)
+    if kind == "deepcopy":
+        sub = copy.deepcopy(sub)
+    elif kind == "decoded":
+        sub = deserialize(bytes(sub), flavour=_flav(fname))
+    elif kind == "text":
+        try:
+            sub = parse_text_subroutine(PRE + str(valid), flavour=_flav(fname))
+        except Exception:
+            return None
+    if len(sub.instructions) != 1 or type(sub.instructions[0]) is not cls or sub.instructions[0] != valid:
+        return None  # (what the assembler / decoder makes of valid programs is C01 / C17's business)
+    if again:
+        bytes(sub)  # encoded once while it was still valid
+    return sub
+
+
+def check_mutate(case) -> str:
+    """The unrepresentable operand is put into a program that already exists (and that may have been encoded or
+    decoded before).  Oracle: the program now *contains* the operand, so encoding raises, or the bytes decode to the
+    program with the changed operand (built here from the case's values, without looking at the mutated objects)."""
+    from netqasm.lang.parsing import deserialize
+    from netqasm.lang.subroutine import Subroutine
+
+    fname = case["flavour"]
+    cls = g.class_by_name(fname, case["cls"])
+    shape = g.shape_of(cls)
+    pos, subkey = case["pos"]
+    name, okind = shape[pos]
+    sig = f"mutate:{case['what']}:{case['origin']}:{case['how']}"
+    sub = _obtain(case["origin"], fname, cls, case["base"])
+    if sub is None:
+        return "origin-unavailable"
+    before = bytes(sub) if case["origin"].endswith("-encoded") else None
+    instr = sub.instructions[0]
+    new_operand = g.operand_from_json(okind, case["vals"][pos])
+    if case["how"] == "in-place" and subkey is not None and okind in ("entry", "slice"):
+        holder = getattr(instr, name)  # the mutable ArrayEntry / ArraySlice the program already holds
+        setattr(holder, _SUBFIELD[subkey], getattr(new_operand, _SUBFIELD[subkey]))
+    else:
+        setattr(instr, name, new_operand)
+    want = Subroutine(instructions=[g.build(cls, case["vals"])], netqasm_version=(0, 0), app_id=0)
+    if [str(i) for i in sub.instructions] != [str(i) for i in want.instructions]:
+        raise HarnessError(f"mutation did not produce the intended program: {[str(i) for i in sub.instructions]} vs {[str(i) for i in want.instructions]}")
+    try:
+        raw = bytes(sub)
+    except Exception:
+        return "raised"
+    try:
+        same = _decoded_equal(want, raw, fname)
+    except Exception as e:
+        raise Failure(sig, case, f"encoded without error but bytes do not decode: {type(e).__name__}: {e}")
+    if not same:
+        back = deserialize(raw, flavour=_flav(fname))
+        raise Failure(
+            sig,
+            case,
+            f"silently altered: a valid program ({case['origin']}) was changed by its owner ({case['how']}) to {[str(i) for i in want.instructions]}; "
+            f"encoding it raised nothing and gave bytes that decode as {[str(i) for i in back.instructions]}"
+            + (" (the bytes of the program before the change)" if before is not None and raw == before else ""),
+        )
+    return "equal"
+
+
 def check(case) -> str:
     r = case["route"]
     if r == "direct":
@@ -330,6 +414,8 @@ def check(case) -> str:
         return check_text(case)
     if r == "sdk":
         return check_sdk(case)
+    if r == "mutate":
+        return check_mutate(case)
     raise HarnessError(r)
 
 
@@ -339,6 +425,35 @@ def _text_of(cls, vals) -> str:
 
 def _shared_classes():
     return set(g.flavour_classes("vanilla")) & set(g.flavour_classes("nv"))
+
+
+def _hows(okind):
+    return ["in-place", "replace"] if okind in ("entry", "slice") else ["in-place"]
+
+
+def enumerated_mutations() -> List[Any]:
+    """every class x operand position x {just outside, far outside} x origin of the program x way of changing it"""
+    mut_out = {"regidx": MUT_REGIDX, "u8": MUT_U8, "i32": MUT_I32}
+    cases = []
+    for fname in g.FLAVOURS:
+        for cls in g.flavour_classes(fname):
+            shape = g.shape_of(cls)
+            base = [copy.deepcopy(_BASE[k]) for _n, k in shape]
+            origins = [o for o in MUT_ORIGINS if _origin_exists(o, fname, cls, base)]
+            for pos, sub, kind in positions(shape):
+                for v in mut_out[kind]:
+                    vals = make_vals(shape, pos, sub, kind, v)
+                    for origin in origins:
+                        for how in _hows(shape[pos][1]):
+                            cases.append({"route": "mutate", "what": kind, "origin": origin, "how": how, "flavour": fname, "cls": cls.__name__, "base": base, "vals": vals, "pos": [pos, sub], "value": v})
+    return cases
+
+
+def _origin_exists(origin, fname, cls, base) -> bool:
+    try:
+        return _obtain(origin, fname, cls, base) is not None
+    except Exception:
+        return False
 
 
 def enumerated() -> List[Any]:
@@ -361,6 +476,7 @@ def enumerated() -> List[Any]:
                     except Exception:
                         continue
                     cases.append({"route": "text", "what": what, "flavour": fname, "cls": cls.__name__, "text": PRE + text, "pos": [pos, sub], "value": v})
+    cases.extend(enumerated_mutations())
     for v in OUT_APP:
         cases.append({"route": "direct", "what": "app_id", "flavour": "vanilla", "cls": None, "vals": [], "app_id": v, "value": v})
         cases.append({"route": "direct", "what": "app_id", "via": "instantiate", "flavour": "vanilla", "cls": None, "vals": [], "app_id": v, "value": v})
@@ -440,14 +556,50 @@ def st_random():
     return st.one_of([for_flavour(f) for f in g.FLAVOURS])
 
 
+def st_random_mutation():
+    """valid random operands everywhere, then one of them changed to a random outlier on a random (origin, how)"""
+
+    def for_flavour(fname):
+        classes = [c for c in g.flavour_classes(fname) if positions(g.shape_of(c))]
+
+        def for_cls(cls):
+            shape = g.shape_of(cls)
+            poss = positions(shape)
+            base = st.tuples(*[g.st_operand(k) for _n, k in shape]).map(list)
+
+            def mk(t):
+                basevals, (pos, sub, kind), v, origin, how = t
+                vals = make_vals(shape, pos, sub, kind, v, base=basevals)
+                return {"route": "mutate", "what": kind, "origin": origin, "how": how, "flavour": fname, "cls": cls.__name__, "base": basevals, "vals": vals, "pos": [pos, sub], "value": v}
+
+            def outl(kind):
+                if kind == "regidx":
+                    return st.integers(16, 300) | st.sampled_from(OUT_REGIDX)
+                if kind == "u8":
+                    return st.integers(256, 2**20) | st.integers(-(2**20), -1) | st.sampled_from(OUT_U8)
+                return st.integers(2**31, 2**40) | st.integers(-(2**40), -(2**31) - 1) | st.sampled_from(OUT_I32)
+
+            return st.sampled_from(poss).flatmap(
+                lambda p: st.tuples(base, st.just(p), outl(p[2]), st.sampled_from(MUT_ORIGINS), st.sampled_from(_hows(shape[p[0]][1])))
+            ).map(mk)
+
+        return st.one_of([for_cls(c) for c in classes])
+
+    return st.one_of([for_flavour(f) for f in g.FLAVOURS])
+
+
 def shard(ctx: Ctx) -> None:
     stt = ctx.stats
 
     def run(case):
         res = check(case)
-        key = {k: case[k] for k in case if k != "vals"} if case["route"] != "direct" else case
-        stt.case(key, True, [f"route:{case['route']}" + (":numpy-integer" if case.get("np") else "") + (":" + case["via"] if case.get("via") else ""), f"what:{case['what']}", f"result:{res}"],
-                 sample={k: case[k] for k in ("route", "what", "value", "text", "cls", "vals") if k in case})
+        key = {k: case[k] for k in case if k != "vals"} if case["route"] not in ("direct", "mutate") else case
+        labels = [f"route:{case['route']}" + (":numpy-integer" if case.get("np") else "") + (":" + case["via"] if case.get("via") else ""), f"what:{case['what']}", f"result:{res}"]
+        if case["route"] == "mutate":
+            labels += [f"mutate:origin:{case['origin']}", f"mutate:how:{case['how']}" + (":field-of-held-entry/slice" if case["how"] == "in-place" and case["pos"][1] is not None and g.shape_of(g.class_by_name(case["flavour"], case["cls"]))[case["pos"][0]][1] in ("entry", "slice") else "")]
+        # a mutation whose origin does not exist for the class (no text form) exercises nothing
+        stt.case(key, res != "origin-unavailable", labels,
+                 sample={k: case[k] for k in ("route", "what", "value", "text", "cls", "vals", "origin", "how") if k in case})
         if res == "raised":
             stt.rejected[case["what"]] += 1
 
@@ -455,9 +607,10 @@ def shard(ctx: Ctx) -> None:
         en = enumerated()
         for case in en:
             ctx.attempt(case, run, case)
-        stt.exhaustive_domains["every class x operand position x outlier list, on direct/text routes; SDK routes"] = len(en)
+        stt.exhaustive_domains["every class x operand position x outlier list, on direct/text routes; SDK routes; every class x position x {just, far outside} x program origin x way of changing (mutate route)"] = len(en)
     n = 1500 if ctx.tier == "quick" else 10000
     ctx.search(st_random(), run, n, name="c16-random")
+    ctx.search(st_random_mutation(), run, 600 if ctx.tier == "quick" else 4000, name="c16-random-mutation", salt=1)
 
 
 def replay(case):
